@@ -4,6 +4,7 @@
 extern crate iceoryx2_bb_loggers;
 
 mod exec;
+mod registry;
 mod seqlock;
 mod spsc;
 mod uis;
@@ -14,6 +15,7 @@ fn main() {
         Some("spsc") => spsc::main(&args),
         Some("uis") => uis::main(&args),
         Some("seqlock") => seqlock::main(&args),
+        Some("registry") => registry::main(&args),
         other => {
             eprintln!("unknown sub-command {other:?}");
             std::process::exit(2);
